@@ -7,6 +7,7 @@ import Penguin.Lemmas.MuxBasic
 
 namespace Penguin.BindAll
 open Penguin.Mux
+open Penguin.PairAll (inMsgs)
 
 theorem map_fid_modify (objs : List Obj) (i : Nat) (f : Obj → Obj) (hf : ∀ o, (f o).fid = o.fid) :
     (objs.modify i f).map (·.fid) = objs.map (·.fid) := by
@@ -62,9 +63,44 @@ theorem BSim.enq {l : List WsIn} (e : EP) (m : Msg) (ok : OkEnq (bview e l) m) :
 theorem BSim.enqFrame {l : List WsIn} (e : EP) (f : Frame) (ok : OkEnq (bview e l) (.frame f)) :
     BSim l e l (e.enqFrame f) [] [] := BSim.enq e _ ok
 
-/-- The head of the inbox is taken (and has no effect the view records). -/
-theorem BSim.pop {l : List WsIn} (e : EP) (w : WsIn) : BSim (w :: l) e l e [] [] :=
-  BSim.shrink { Shrinks.refl (bview e (w :: l)) with inbox := List.suffix_cons w l } rfl
+/-- The item `w` may be taken from the inbox silently: it is no answer frame (`Finish y` / `Reset y`) of a flow
+    whose slot is a pending bind request. -/
+def PopOk (fl : List (Nat × Slot)) (w : WsIn) : Prop :=
+  ∀ y r, lookup fl y = some (.bindRequested r) → ∀ m, w = .msg m → ansOf y m = none
+
+/-- An item that is neither a `Finish` nor a `Reset` frame. -/
+theorem PopOk.other {fl : List (Nat × Slot)} {w : WsIn} (h : ∀ m, w = .msg m → ∀ y, ansOf y m = none) : PopOk fl w :=
+  fun y _ _ m hm => h m hm y
+
+/-- A `Finish fid` / `Reset fid` whose flow has no pending bind request slot. -/
+theorem PopOk.finish {fl : List (Nat × Slot)} {fid : Nat} (h : ∀ r, lookup fl fid ≠ some (.bindRequested r)) :
+    PopOk fl (.msg (.frame (.finish fid))) := by
+  intro y r hl m hm
+  cases hm
+  simp only [ansOf]
+  split
+  · rename_i he; subst he; exact absurd hl (h r)
+  · rfl
+
+theorem PopOk.reset {fl : List (Nat × Slot)} {fid : Nat} (h : ∀ r, lookup fl fid ≠ some (.bindRequested r)) :
+    PopOk fl (.msg (.frame (.reset fid))) := by
+  intro y r hl m hm
+  cases hm
+  simp only [ansOf]
+  split
+  · rename_i he; subst he; exact absurd hl (h r)
+  · rfl
+
+theorem ans_inMsgs_cons {fl : List (Nat × Slot)} {w : WsIn} (hg : PopOk fl w) (l : List WsIn) (y r : Nat)
+    (hl : lookup fl y = some (.bindRequested r)) : ans y (inMsgs l) = ans y (inMsgs (w :: l)) := by
+  cases w with
+  | msg m => simp [inMsgs, ans, hg y r hl m rfl]
+  | _ => rfl
+
+/-- The head of the inbox is taken (it does not end the source, and is no answer to a pending bind request). -/
+theorem BSim.pop {l : List WsIn} (e : EP) (w : WsIn) (hg : PopOk e.flows w) : BSim (w :: l) e l e [] [] :=
+  BSim.shrink { Shrinks.refl (bview e (w :: l)) with
+    inbox := List.suffix_cons w l, pops := fun y r hl => ans_inMsgs_cons hg l y r hl } rfl
 
 /-- Slots are released. -/
 theorem BSim.flows {l : List WsIn} (e : EP) (fl : List (Nat × Slot)) (h : fl.Sublist e.flows) :
